@@ -116,6 +116,17 @@ def heap_groups(ctx, sc_dir):
         for k in range(3):
             for E in Es:
                 one('ri %d %s %s %s' % (k, esc(c), hx(E), hx(r.choice(rhos))))
+    # numeric crystal functions on copies of built-in crystals: energies on both sides of the Bragg cut-off of common reflections
+    cn = [n for n, _ in crystal_entries(REPO)]
+    for c in (cn if thorough else r.sample(cn, 8)) + ['nope']:
+        for (h, k, l) in [(1, 1, 1), (4, 4, 4), (2, 2, 0), (0, 0, 0), (1, 0, 0), (-3, 1, 2)]:
+            for E in ([0.5, 1.0, 1.5, 1.9, 2.0, 2.6, 3.0, 5.0, 7.9, 8.0, 10.0, 20.0, -1.0, 0.0] if thorough else r.sample([0.5, 1.0, 1.5, 1.9, 2.0, 2.6, 3.0, 5.0, 7.9, 8.0, 10.0, 20.0], 5) + [-1.0, 0.0]):
+                for kf in range(6):
+                    one('cfun %d %s %s %d %d %d %s' % (kf, esc(c), hx(E), h, k, l, hx(r.choice([1.0, 0.9, 0.0, -1.0]) if kf in (2, 3) else 1.0)))
+    for Z in (-1, 0, 1, 8, 14, 26, 92, 99, 100, 120, 121):
+        for E in (0.0005, 0.001, 1.0, 8.0, 9999.0, 10001.0, -1.0):
+            for q in (0.0, 0.5, 1e9, -1.0):
+                one('af %d %s %s %s' % (Z, hx(E), hx(q), hx(r.choice([1.0, 0.0, -0.5]))))
     # crystal arrays: brackets ainit .. afree with additions, file loads (well-formed, duplicate names, name already present,
     # truncated, garbage, empty, missing), lookups and listings
     ents = crystal_entries(REPO)
